@@ -119,6 +119,34 @@ def serve (codec : String → Codec) (cfg : Cfg) (r : Request) : Outcome :=
     | none => .rejected Compression.rejectStatus               -- reader constructor failed
     | some s => .handled (limitRead cfg.limit s)                -- MaxBytesReader over the decoded stream
 
+/-! ## compression levels -/
+
+/-- `configcompression.Type.ValidateParams` (what `ClientConfig.Validate` accepts), for every integer level -/
+def levelAccepted (t : String) (l : Int) : Bool :=
+  if Compression.anyLevelTypes.contains t then true
+  else match assoc Compression.levelRules t with
+    | some (singles, ranges) =>
+      singles.contains l || ranges.any (fun r => decide (r.1 ≤ l) && decide (l ≤ r.2)) || decide (l = Compression.fallbackLevel)
+    | none => decide (l = Compression.fallbackLevel)
+
+/-- `ToClient`: the level the writer factory is given -/
+def effLevel (l : Int) : Int := if l = 0 then Compression.unsetLevelBecomes else l
+
+/-- library fact (trusted, `compress/flate`): `gzip/zlib.NewWriterLevel` succeed exactly for `HuffmanOnly (-2) … BestCompression (9)`;
+zstd maps any integer to one of its levels; snappy and lz4 take no level. A level outside the range yields a nil writer
+(`newWriteCloserResetFunc` drops the constructor's error) and the first request panics. -/
+def libLevelOk (lib : String) (l : Int) : Bool :=
+  if lib = "gzip" ∨ lib = "zlib" then decide (-2 ≤ l) && decide (l ≤ 9) else true
+
+/-- does the writer of client type `t` come into existence for level `l`? -/
+def writerLevelOk (t : String) (l : Int) : Bool :=
+  match assoc Compression.writers t with
+  | none => false
+  | some lib =>
+    match assoc Compression.writerPassesLevel t with
+    | some true => libLevelOk lib l
+    | _ => true
+
 /-! ## how a handler consumes the body -/
 
 /-- the handler's way of reading `r.Body` -/
@@ -175,10 +203,12 @@ def serveS (codec : String → Codec) (s : Server) (r : Request) : Outcome :=
 /-- `WithErrorHandler`: the caller's handler replaces `defaultErrorHandler`; it is only ever invoked on the
 rejection path of `ServeHTTP`, with the message and `Compression.rejectStatus`. `eh = some f`: the status the
 caller's handler answers when handed status `st` is `f st`. -/
-def serveE (eh : Option (Nat → Nat)) (codec : String → Codec) (s : Server) (r : Request) : Outcome :=
-  match serveS codec s r with
+def Outcome.answeredBy (eh : Option (Nat → Nat)) : Outcome → Outcome
   | .rejected st => .rejected (match eh with | some f => f st | none => st)
   | o => o
+
+def serveE (eh : Option (Nat → Nat)) (codec : String → Codec) (s : Server) (r : Request) : Outcome :=
+  (serveS codec s r).answeredBy eh
 
 /-- What earlier server constructions have written into the package-level `availableDecoders`.
 The code as it is only reads that map (`Compression.availableDecodersOnlyRead`, checked by the translator over
@@ -193,9 +223,25 @@ def Proc.clean : Proc := ⟨[]⟩
 def Proc.construct (p : Proc) (s : Server) : Proc :=
   if Compression.availableDecodersOnlyRead then p else ⟨s.custom ++ p.overrides⟩
 
-/-- serving inside a process: polluted global entries are seen for every name the server enables -/
+/-- the server as it behaves inside a process: polluted global entries are seen for every name the server enables -/
+def Proc.server (p : Proc) (s : Server) : Server :=
+  { s with custom := s.custom ++ p.overrides.filter (fun kv => s.enabled.contains kv.1) }
+
 def serveP (p : Proc) (codec : String → Codec) (s : Server) (r : Request) : Outcome :=
-  serveS codec { s with custom := s.custom ++ p.overrides.filter (fun kv => s.enabled.contains kv.1) } r
+  serveS codec (p.server s) r
+
+/-- what the request *looks like* to the base handler (`ServeHTTP`'s rewrites): for a decoded body `Content-Encoding` and
+`Content-Length` are deleted and `r.ContentLength = -1` (a handler must not size its read by the compressed length); for an
+identity / pass-through body nothing is touched -/
+structure ReqView where
+  contentLength : Option Nat      -- `none` = -1 (unknown)
+  hasEncodingHeader : Bool
+deriving DecidableEq, Repr
+
+def handlerView (s : Server) (r : Request) (knownLength : Bool) : ReqView :=
+  match decoderFor s r.encoding with
+  | some (.lib _) => ⟨none, false⟩
+  | _ => ⟨if knownLength then some r.wire.data.length else none, r.encoding != ""⟩
 
 /-- `configcompression.Type.IsCompressed` -/
 def isCompressed (t : String) : Bool := !(Compression.uncompressedTypes.contains t)
